@@ -192,6 +192,38 @@ def highs_itself_fails(f):
     return out[0] != 0 and out[1] == 0
 
 
+def scip_itself_fabricates(f):
+    """independent translation of a compiled mixed-integer program into OR-Tools' SCIP (not RSOME's ort_solver): True when SCIP itself
+    reports OPTIMAL for it. Used only for programs that are unbounded by construction and that HiGHS and Gurobi call unbounded: the
+    fabricated optimum then belongs to the installed solver (seen: a free continuous column pushed by the objective next to integer
+    columns), not to the interface code the property is about"""
+    from ortools.linear_solver import pywraplp
+    sv = pywraplp.Solver.CreateSolver('SCIP')
+    vt = list(f.vtype)
+    inf = sv.infinity()
+    lb = [(-inf if v == -np.inf else float(v)) for v in f.lb]
+    ub = [(inf if v == np.inf else float(v)) for v in f.ub]
+    xs = []
+    for j, t in enumerate(vt):
+        if t == 'C':
+            xs.append(sv.NumVar(lb[j], ub[j], 'v%d' % j))
+        elif t == 'B':
+            xs.append(sv.IntVar(max(0.0, lb[j]), min(1.0, ub[j]), 'v%d' % j))
+        else:
+            xs.append(sv.IntVar(lb[j], ub[j], 'v%d' % j))
+    A = f.linear.tocsr()
+    for i in range(A.shape[0]):
+        ct = sv.Constraint(float(f.const[i]) if f.sense[i] == 1 else -inf, float(f.const[i]))
+        for k in range(A.indptr[i], A.indptr[i + 1]):
+            ct.SetCoefficient(xs[A.indices[k]], float(A.data[k]))
+    ob = sv.Objective()
+    for j, cj in enumerate(np.asarray(f.obj, dtype=float).ravel()):
+        if cj:
+            ob.SetCoefficient(xs[j], float(cj))
+    ob.SetMinimization()
+    return sv.Solve() == pywraplp.Solver.OPTIMAL
+
+
 def ill_posed(results, tolv, delta=1e-6):
     """True when, for some interface that solved the program, relaxing every inequality row and every column bound by `delta`
     (the order of the solvers' feasibility tolerances) moves that same interface's optimal value by more than the comparison
@@ -314,6 +346,10 @@ class C11(Prop):
             results.append((name, exact, solved, got, sol, f))
         if status != 'feasible':
             for name, exact, solved, got, sol, f in results:
+                if solved and name == 'ortools' and status == 'unbounded' and fam in ('milp', 'misoc') and \
+                        all(not r[2] for r in results if r[0] != 'ortools') and len(results) >= 2 and scip_itself_fabricates(f):
+                    return Outcome.inconclusive('SCIP (OR-Tools) itself reports OPTIMAL for the unbounded compiled program when called through an '
+                                                'independent translation (solver defect, not interface code)', labels + ['scip_failure'])
                 if solved:
                     return Outcome.fail('fabricated:%s:%s:%s' % (status, fam, name),
                                         '%s returned optimum %.9g (status %s) for a program that is %s' % (name, got, sol.status, status), labels)
